@@ -12,21 +12,21 @@ d=sys.argv[1]; kv=dict(a.split('=',1) for a in sys.argv[2:])
 json.dump(kv,open(d+'/eval.json','w'),indent=1); print(kv)
 PY
 }
-/root/mut/mkwt.sh $WT >/dev/null || exit 3
-( cd /tmp && /root/mut/wtpy $WT $DIR/demo.py >/tmp/ev_demo0_$TAG.log 2>&1 ); DEMO_CLEAN=$?
+$D/tools/mut/mkwt.sh $WT >/dev/null || exit 3
+( cd /tmp && $D/tools/mut/wtpy $WT $DIR/demo.py >/tmp/ev_demo0_$TAG.log 2>&1 ); DEMO_CLEAN=$?
 if ! git -C $WT apply "$DIR/patch.diff" 2>/tmp/ev_apply_$TAG.log; then
-  if ! git -C $WT apply -3 "$DIR/patch.diff" 2>>/tmp/ev_apply_$TAG.log; then res $DIR status=patch-does-not-apply; /root/mut/rmwt.sh $WT >/dev/null 2>&1; exit 3; fi
+  if ! git -C $WT apply -3 "$DIR/patch.diff" 2>>/tmp/ev_apply_$TAG.log; then res $DIR status=patch-does-not-apply; $D/tools/mut/rmwt.sh $WT >/dev/null 2>&1; exit 3; fi
 fi
 git -C $WT diff --name-only | grep -q '\.pxd$' && find $WT/cherab -name '*.pxd' -newer $WT/setup.py -exec touch {} + 
-(cd $WT && /venv/bin/python setup.py build_ext --inplace -j16 > /tmp/ev_build_$TAG.log 2>&1) || { res $DIR status=does-not-compile; /root/mut/rmwt.sh $WT >/dev/null 2>&1; exit 3; }
-( cd /tmp && /root/mut/wtpy $WT $DIR/demo.py >/tmp/ev_demo1_$TAG.log 2>&1 ); DEMO_PATCHED=$?
-( cd $WT && timeout 2400 /root/mut/wtpy $WT -m pytest -q -p no:cacheprovider --timeout=900 $WT/cherab > /tmp/ev_tests_$TAG.log 2>&1 ); 
+(cd $WT && /venv/bin/python setup.py build_ext --inplace -j16 > /tmp/ev_build_$TAG.log 2>&1) || { res $DIR status=does-not-compile; $D/tools/mut/rmwt.sh $WT >/dev/null 2>&1; exit 3; }
+( cd /tmp && $D/tools/mut/wtpy $WT $DIR/demo.py >/tmp/ev_demo1_$TAG.log 2>&1 ); DEMO_PATCHED=$?
+( cd $WT && timeout 2400 $D/tools/mut/wtpy $WT -m pytest -q -p no:cacheprovider --timeout=900 $WT/cherab > /tmp/ev_tests_$TAG.log 2>&1 ); 
 TESTS=$(grep -E "passed|failed" /tmp/ev_tests_$TAG.log | tail -1 | tr ' ' '_')
 mkdir -p $EV
 rsync -a --delete --exclude .git --exclude replays --exclude seeded "$D"/ $EV/
 grep -rl "/repo" $EV/harness $EV/setup.sh 2>/dev/null | xargs -r sed -i -E "s#/repo([^a-zA-Z0-9_]|$)#$WT\\1#g"
 cd $EV
-timeout 3000 env PYTHONPATH=/root/wtsite CHERAB_WT=$WT VERIF_SEED=${VERIF_SEED:-0} ./check $P --tier $TIER > /tmp/ev_out_$TAG.log 2>&1
+timeout 3000 env PYTHONPATH=$D/tools/mut/wtsite CHERAB_WT=$WT VERIF_SEED=${VERIF_SEED:-0} ./check $P --tier $TIER > /tmp/ev_out_$TAG.log 2>&1
 RC=$?
 SIGS=$(grep -E "FAILING INPUT" /tmp/ev_out_$TAG.log | sed 's/.*FAILING INPUT //' | cut -c1-110 | head -4 | tr '\n' ';' | tr '=' ':')
 NV=$(grep -c "^VIOLATION" /tmp/ev_out_$TAG.log)
@@ -34,5 +34,5 @@ NF=$(grep -c "no-failing-input-found" /tmp/ev_out_$TAG.log)
 NB=$(grep -c "BROKEN" /tmp/ev_out_$TAG.log)
 res $DIR status=evaluated demo_clean_exit=$DEMO_CLEAN demo_patched_exit=$DEMO_PATCHED tests="$TESTS" check_exit=$RC violations=$NV no_failing_input_found=$NF broken=$NB signatures="$SIGS"
 cp /tmp/ev_out_$TAG.log $DIR/check_output.log 2>/dev/null
-/root/mut/rmwt.sh $WT >/dev/null 2>&1
+$D/tools/mut/rmwt.sh $WT >/dev/null 2>&1
 rm -rf $EV
